@@ -131,3 +131,12 @@ func (r *Run) findInput(e *vc.Engine, o *vc.Obligation) map[string]interface{} {
 func replayConcrete(rf *ReplayFile, repo, verif string) int {
 	return -1
 }
+
+func mkdir(d string) error { return os.MkdirAll(d, 0o755) }
+func removeAll(d string)   { _ = os.RemoveAll(d) }
+func getenv(k, def string) string {
+	if v := os.Getenv(k); v != "" {
+		return v
+	}
+	return def
+}
